@@ -77,3 +77,13 @@ Print Assumptions C02_do_move_refines_legal.
 Print Assumptions C02_do_moves_refines.
 Print Assumptions C02_do_move_total.
 Print Assumptions C02_setup_inv.
+
+(* tie to the source: the constants the model copies from the Go source equal what the running engine reports
+   (gen/Tables_gen.v is regenerated on every run by `verifh dump-tables`) *)
+From FG.gen Require Import Tables_gen.
+From Coq Require Import ZArith NArith. (* consts *)
+From FG Require ConstTie.
+From FG Require PosImpl.
+Theorem C02_model_constants_dumped :
+  PosImpl.GamePhaseMax = c_game_phase_max /\ Z.of_nat PosImpl.MaxHistory = c_max_moves.
+Proof. exact ConstTie.posimpl_constants_dumped. Qed.
